@@ -34,12 +34,18 @@ all-or-none).
     leaves — inside the decidable clause `leaves500` the catalogue of the accepted request with the task not executing,
     outside it nothing; batch tasks: three-way start outcome (`start_outcome_is_oracle`,
     `batching_refused_is_not_executing`).
+  * the paged / filtered listings (GET /tasks, GET /templates with pattern, offset, limit; model Kap/Model/C14List.lean,
+    spec Kap/Spec/C14List.lean): the loop of storage.DoListFunc computes filter | drop(offset) | take(limit) — offset and
+    limit count MATCHES — for every index, match function, offset and limit; along every deviation-free history the
+    list handlers show exactly the page of the catalogue sorted by ID; pages with consecutive offsets concatenate to the
+    filtered listing and an ID appears in at most one of them.
 What is only STATED (`…_stmt`): all-or-none for template updates answered 500 (FALSE of today's code), kept next to its
 counterexample.
 -/
 import Kap.Proofs.C14Full
 import Kap.Proofs.C14Fault
 import Kap.Proofs.C14Five
+import Kap.Proofs.C14Idx
 namespace Kap.Props.C14
 open Kap.C14
 
@@ -732,5 +738,95 @@ def twoTasks : List Req :=
 example : (run Variant.fixed demoEnv twoTasks).store.tids = ["a", "b"] ∧
     (run Variant.fixed demoEnv twoTasks).exec "a" = true ∧ (run Variant.fixed demoEnv twoTasks).exec "b" = false := by
   decide
+
+/-! ### Paged and filtered listings (GET /tasks, GET /templates with pattern / offset / limit) -/
+
+/-- **storage.DoListFunc shows filter | drop(offset) | take(limit)**: for EVERY index list, match function, offset
+and limit, the transcribed loop (count the matches, skip the first `offset` of THEM, stop after
+`min(offset+limit, len) - offset` results) returns exactly the matching entries without the first `offset` matching
+ones, cut after `limit`. In particular entries that do not match never count against the offset. -/
+theorem list_loop_is_filter_drop_take (l : List String) (m : String → Bool) (offset limit : Nat) :
+    doListFunc l m offset limit = ((l.filter m).drop offset).take limit :=
+  doListFunc_eq_pageIds l m offset limit
+
+/-- **A listing request shows the page of the catalogue**: in every state whose view is the catalogue (`RInv`) and
+whose ID indexes are sorted (`WIdx`; both hold along every deviation-free history, next theorem), for every pattern,
+offset and limit, GET /tasks shows exactly the catalogue's tasks sorted by ID, restricted to the IDs the pattern
+denotes, without the first `offset` and cut after `limit` of those — each with its last accepted definition and
+executing ⇔ enabled ∧ started — and GET /templates likewise. `known` is any list that contains the defined IDs. -/
+theorem listing_page_shows_catalogue (w : World) (c : Cat) (h : RInv w c) (hi : WIdx w)
+    (known knownT : List String) (hk : ∀ i t, c.tasks i = some t → i ∈ known)
+    (hkT : ∀ i s, c.tmpls i = some s → i ∈ knownT) (pattern : String) (offset limit : Nat) :
+    listTasks w pattern offset limit = c.taskPage known pattern offset limit ∧
+    listTmpls w pattern offset limit = c.tmplPage knownT pattern offset limit :=
+  ⟨listTasks_eq_taskPage h hi known hk pattern offset limit, listTmpls_eq_tmplPage h hi knownT hkT pattern offset limit⟩
+
+/-- … **after every deviation-free history** of create / update / delete / template / restart / death requests, accepted
+or rejected, any oracle: every listing request — any pattern, offset, limit — shows the page of the catalogue the
+history defines. -/
+theorem listing_pages_show_catalogue_all_histories (env : Env) (reqs : List Req) (hok : AllFree env reqs ({}, {}))
+    (known knownT : List String) (hk : ∀ i t, (runBoth env reqs ({}, {})).2.tasks i = some t → i ∈ known)
+    (hkT : ∀ i s, (runBoth env reqs ({}, {})).2.tmpls i = some s → i ∈ knownT) (pattern : String) (offset limit : Nat) :
+    listTasks (runBoth env reqs ({}, {})).1 pattern offset limit =
+      (runBoth env reqs ({}, {})).2.taskPage known pattern offset limit ∧
+    listTmpls (runBoth env reqs ({}, {})).1 pattern offset limit =
+      (runBoth env reqs ({}, {})).2.tmplPage knownT pattern offset limit :=
+  listing_page_shows_catalogue _ _ (refine_history_full env reqs {} {} RInv.init hok)
+    (runBoth_idx env reqs {} {} WIdx.init hok) known knownT hk hkT pattern offset limit
+
+/-- The ID indexes stay strictly sorted (key order, no duplicates) through every request handler, every revision of
+the code, every oracle. -/
+theorem index_stays_sorted (v : Variant) (env : Env) (fail : List String) (w : World) (op : Op) (h : WIdx w) :
+    WIdx (handle v env fail w op).1 :=
+  h.handle v env fail op
+
+/-- **Pages with consecutive offsets concatenate**: the page at `offset` of `k` entries followed by the page at
+`offset + k` of `k'` entries is the page at `offset` of `k + k'` entries … -/
+theorem pages_concatenate (ids : List String) (m : String → Bool) (offset k k' : Nat) :
+    pageIds ids m offset k ++ pageIds ids m (offset + k) k' = pageIds ids m offset (k + k') :=
+  pageIds_append ids m offset k k'
+
+/-- … so **the walk of a paging client** (pages of `lim` entries at offsets 0, lim, 2·lim, …) yields the filtered
+listing, in order, without gaps or repetitions: after `n` pages exactly its first `n·lim` entries, and all of it once
+`n·lim` reaches its length. -/
+theorem paging_walk_is_filtered_listing (ids : List String) (m : String → Bool) (lim n : Nat) :
+    walk ids m lim n = (ids.filter m).take (n * lim) ∧
+    ((ids.filter m).length ≤ n * lim → walk ids m lim n = ids.filter m) := by
+  refine ⟨walk_eq ids m lim n, fun h => ?_⟩
+  rw [walk_eq, List.take_of_length_le h]
+
+/-- **An ID appears in at most one page**: two pages of the same listing that do not overlap in offsets
+(`o1 + l1 ≤ o2`) have no ID in common — for the sorted catalogue of any history (`Cat.taskIds`, `Cat.tmplIds` have no
+duplicates) and every pattern. -/
+theorem id_in_at_most_one_page (c : Cat) (known : List String) (m : String → Bool) (o1 l1 o2 l2 : Nat)
+    (hle : o1 + l1 ≤ o2) (x : String) :
+    (x ∈ pageIds (c.taskIds known) m o1 l1 → x ∉ pageIds (c.taskIds known) m o2 l2) ∧
+    (x ∈ pageIds (c.tmplIds known) m o1 l1 → x ∉ pageIds (c.tmplIds known) m o2 l2) :=
+  ⟨fun h => pageIds_disjoint (Sorted.nodup (List.Pairwise.filter _ (sortIds_sorted known))) m hle h,
+   fun h => pageIds_disjoint (Sorted.nodup (List.Pairwise.filter _ (sortIds_sorted known))) m hle h⟩
+
+example : "b" ∈ pageIds ["a", "ab", "b", "c"] (matchFn "?") 1 1 ∧ "b" ∉ pageIds ["a", "ab", "b", "c"] (matchFn "?") 2 1 ∧
+    pageIds ["a", "ab", "b", "c"] (matchFn "?") 0 1 ++ pageIds ["a", "ab", "b", "c"] (matchFn "?") 1 2 = ["a", "b", "c"] := by
+  decide
+
+/-- Regression witness (seeded change C14-8, "skip the first `offset` index entries before matching"): on the index
+a, ab, b with pattern `b*` and offset 1 the page is EMPTY (b is the only match and it is skipped); dropping the first
+INDEX entry instead shows b — a paging client would see b twice. The two readings differ exactly when an ID that
+does not match sorts before one that does. -/
+theorem offset_counts_matches_not_index_entries :
+    doListFunc ["a", "ab", "b"] (matchFn "b*") 1 1 = [] ∧
+    (((["a", "ab", "b"].drop 1).filter (matchFn "b*")).take 1) = ["b"] ∧
+    doListFunc ["a", "ab", "b"] (matchFn "b*") 0 1 = ["b"] := by
+  decide
+
+/-- Non-vacuity: the listing theorems apply to a reachable state with several tasks (`twoTasks` is deviation-free), the
+pattern `?` there denotes both IDs and the second page of one entry shows b, not executing. -/
+example : AllFree demoEnv twoTasks ({}, {}) ∧
+    (listTasks (runBoth demoEnv twoTasks ({}, {})).1 "?" 1 1).map (fun r => (r.1, r.2.2)) = [("b", false)] ∧
+    matchFn "a*" "ab" = true ∧ matchFn "a" "ab" = false ∧ matchFn "?" "ab" = false ∧ matchFn "" "ab" = true ∧
+    walk ["a", "ab", "b", "c"] (matchFn "?") 1 3 = ["a", "b", "c"] := by
+  refine ⟨?_, by decide, by decide, by decide, by decide, by decide, by decide⟩
+  simp only [AllFree, twoTasks]
+  refine ⟨⟨rfl, by decide, ?_, ?_⟩, ⟨rfl, by decide, ?_, ?_⟩, ⟨rfl, by decide, ?_, ?_⟩, trivial⟩ <;> intros <;> simp_all
 
 end Kap.Props.C14
